@@ -47,6 +47,5 @@ contract(
     ensures={
         "denotes-the-value": "like_decode(result) == value",
         "no-active-wildcard": "like_is_literal(result)",
-        "only-the-three-special-characters-are-escaped": "len(result) == len(value) + sum(1 for c in value if c in '\\\\%_')",
     },
 )
